@@ -31,6 +31,10 @@ pub enum CorruptSpec {
     /// malformed property set (kind, argument)
     PropSet(u8, u32),
     RootClsid,
+    /// another tool left an entry with an unusual raw name (kind)
+    AddEntry(u8),
+    /// the pool stream gains this many empty entries
+    PoolGrow(u32),
 }
 
 impl CorruptSpec {
@@ -48,6 +52,8 @@ impl CorruptSpec {
             CorruptSpec::PoolEntry(..) => "corrupt_pool_entry",
             CorruptSpec::PropSet(..) => "corrupt_property_set",
             CorruptSpec::RootClsid => "corrupt_root_clsid",
+            CorruptSpec::AddEntry(..) => "corrupt_odd_entry_name",
+            CorruptSpec::PoolGrow(..) => "corrupt_pool_grown",
         }
     }
 
@@ -60,6 +66,8 @@ impl CorruptSpec {
                 | CorruptSpec::PoolEntry(..)
                 | CorruptSpec::PropSet(..)
                 | CorruptSpec::RootClsid
+                | CorruptSpec::AddEntry(..)
+                | CorruptSpec::PoolGrow(..)
         )
     }
 
@@ -142,6 +150,31 @@ impl CorruptSpec {
         match self {
             CorruptSpec::RootClsid => {
                 clsid = "000c1084-0000-0000-c000-000000000047".to_string();
+            }
+            CorruptSpec::AddEntry(kind) => {
+                let name = match kind % 8 {
+                    0 => "Extra\u{4840}".to_string(),
+                    1 => "\u{4840}\u{4840}Foo".to_string(),
+                    2 => "\u{4840}".to_string(),
+                    3 => "\u{3800}\u{47ff}\u{4800}\u{483f}".to_string(),
+                    4 => "plainASCIIname".to_string(),
+                    5 => "\u{5}Unknown".to_string(),
+                    6 => format!("{}{}", '\u{4840}', "\u{3801}".repeat(30)),
+                    _ => "\u{4840}\u{3b3f}".to_string(),
+                };
+                if streams.iter().any(|s| s.name == name) {
+                    return false;
+                }
+                streams.push(RawStream { name, data: vec![7u8; (rng.below(40) as usize) * 3] });
+            }
+            CorruptSpec::PoolGrow(n) => {
+                let i = match find(&streams, &pool_name) {
+                    Some(i) => i,
+                    None => return false,
+                };
+                for _ in 0..*n {
+                    streams[i].data.extend_from_slice(&[0, 0, 0, 0]);
+                }
             }
             CorruptSpec::Cell(tsel, csel, kind) => {
                 let tables: Vec<usize> = streams
